@@ -154,7 +154,7 @@ Theorem C16_absolute_difference_integers :
 Proof. exact sem_absdiff_int. Qed.
 Print Assumptions C16_absolute_difference_integers.
 
-(* ---- PercentageDifferenceLevel: |x - y| / max(x, y) < t, strict, on non-integer columns ---- *)
+(* ---- PercentageDifferenceLevel: |x - y| / max(x, y) < t, strict ---- *)
 Theorem C16_percentage_difference :
   forall P fenv env cl cr t x y tq,
     eval P fenv env cl = VNum x -> eval P fenv env cr = VNum y -> numQ t = Some tq ->
@@ -172,16 +172,28 @@ Theorem C16_percentage_difference_zero_never_true :
 Proof. exact sem_pctdiff_zero. Qed.
 Print Assumptions C16_percentage_difference_zero_never_true.
 
-(* REFUTED for INTEGER columns on SQLite (integer division): 3 vs 9 at threshold 0.1 is accepted
-   although the documented percentage difference is 2/3; DuckDB rejects it. *)
-Theorem C16_percentage_difference_sqlite_integers_refuted :
+(* INTEGER columns: the emitted term (with the 1.0 factor, splink 89a1dbc7) is a real division on EVERY engine profile,
+   also under SQLite's truncating integer `/` *)
+Theorem C16_percentage_difference_integers :
+  forall P fenv env cl cr t x y tq,
+    eval P fenv env cl = VInt x -> eval P fenv env cr = VInt y -> numQ t = Some tq ->
+    Qeq_bool (Qmaxb (inject_Z x) (inject_Z y)) 0 = false ->
+    sem P fenv env (gen_pctdiff cl cr t) = doc_pctdiff (inject_Z x) (inject_Z y) tq.
+Proof. exact sem_pctdiff_int. Qed.
+Print Assumptions C16_percentage_difference_integers.
+
+(* the term emitted BEFORE 89a1dbc7 (`gen_pctdiff_old`, no factor) is REFUTED for INTEGER columns on SQLite (integer
+   division): 3 vs 9 at threshold 0.1 is accepted although the documented percentage difference is 2/3; DuckDB rejects it,
+   and so does the current term on SQLite.  (Kept so that reverting the fix is recognised with this concrete input.) *)
+Theorem C16_percentage_difference_old_term_sqlite_integers_refuted :
   exists (x y : Z) (t : Q),
     let env := fun (s : bool) (_ : string) => if s then VInt x else VInt y in
-    sem sqlite_profile (std_fenv []) env (gen_pctdiff (ECol true "x") (ECol false "x") (VNum t)) = T
+    sem sqlite_profile (std_fenv []) env (gen_pctdiff_old (ECol true "x") (ECol false "x") (VNum t)) = T
     /\ doc_pctdiff (inject_Z x) (inject_Z y) t = F
-    /\ sem duckdb_profile (std_fenv []) env (gen_pctdiff (ECol true "x") (ECol false "x") (VNum t)) = F.
+    /\ sem duckdb_profile (std_fenv []) env (gen_pctdiff_old (ECol true "x") (ECol false "x") (VNum t)) = F
+    /\ sem sqlite_profile (std_fenv []) env (gen_pctdiff (ECol true "x") (ECol false "x") (VNum t)) = F.
 Proof. exists 3%Z, 9%Z, (1 # 10)%Q. exact pctdiff_sqlite_integer_witness. Qed.
-Print Assumptions C16_percentage_difference_sqlite_integers_refuted.
+Print Assumptions C16_percentage_difference_old_term_sqlite_integers_refuted.
 
 (* ---- AbsoluteTimeDifferenceLevel / AbsoluteDateDifferenceLevel over an abstract epoch ---- *)
 Theorem C16_time_difference :
